@@ -12,7 +12,7 @@ import types
 from harness import gallina as G
 
 ID = "C47"
-COQ_DIRS = ["C47", "Gen"]
+COQ_DIRS = ["C47", "Gen", "C32"]
 PROPERTY_FILE = "C47/Property.v"
 RUN_IMPORTS = "From TV Require Import C47.Model C47.Run."
 RUN_FN = "run_case"
@@ -137,8 +137,14 @@ def run_impl(case):
 
     async def scenario(loop):
         container = Container(app)
-        servers = {(tls, xh): HTTPServer(container, protocol="https" if tls else None, xheaders=xh)
-                   for tls in (False, True) for xh in (False, True)}
+        servers = {}
+
+        def server_for(st):
+            key = (bool(st["https"]), bool(st.get("xheaders")), tuple(st.get("trusted", [])))
+            if key not in servers:
+                servers[key] = HTTPServer(container, protocol="https" if key[0] else None, xheaders=key[1],
+                                          trusted_downstream=list(key[2]) or None)
+            return servers[key]
         outs = []
         for step in case["steps"]:
             cur.clear()
@@ -146,7 +152,7 @@ def run_impl(case):
             del done[:]
             s = FakeIOStream()
             s.socket = types.SimpleNamespace(family=socket.AF_INET)
-            servers[(bool(step["https"]), bool(step.get("xheaders")))].handle_stream(s, (step["ip"], 4711))
+            server_for(step).handle_stream(s, (step["ip"], 4711))
             s.feed(wire_request(step))
             for _ in range(100 + 8 * len(step["chunks"])):
                 await settle(1)
@@ -174,13 +180,53 @@ def _pairs(l):
     return G.glist(["(%s, %s)" % (G.gbytes(n), G.gbytes(v)) for n, v in l], "(list N * list N)")
 
 
-STEP_TY = ("((bool * bool * list N * bool * list N * list N * list (list N * list N) * list N) * "
+STEP_TY = ("((bool * bool * list N * list (list N) * list (list N * bool) * bool * list N * list N * list (list N * list N) * list N) * "
            "(option (list N * list (list N * list N)) * list (list N) * list (list N)))")
 
 
+_gai_cache = {}
+
+
+def raw_gai(s):
+    """socket.getaddrinfo(AI_NUMERICHOST), the OS function behind netutil.is_valid_ip, asked directly"""
+    if s not in _gai_cache:
+        try:
+            r = bool(socket.getaddrinfo(s, 0, socket.AF_UNSPEC, socket.SOCK_STREAM, 0, socket.AI_NUMERICHOST))
+        except socket.gaierror as e:
+            if e.args[0] != socket.EAI_NONAME:
+                raise
+            r = False
+        except UnicodeError:
+            r = False
+        _gai_cache[s] = r
+    return _gai_cache[s]
+
+
+def gai_table(step):
+    """answers for every string _apply_xheaders can hand to is_valid_ip for this request"""
+    if not step.get("xheaders"):
+        return []
+    keys = []
+
+    def add(x):
+        if x not in keys and "\x00" not in x and x != "" and x.isascii():     # is_valid_ip's own guard comes first
+            keys.append(x)
+    add(step["ip"])
+    vals = lambda name: [v.strip(" \t") for n, v in step["headers"] if n.lower() == name]
+    xff, real = vals("x-forwarded-for"), vals("x-real-ip")
+    if xff:
+        for piece in ",".join(xff).split(","):
+            add(piece.strip())
+    if real:
+        add(",".join(real))
+    return [(k, raw_gai(k)) for k in keys]
+
+
 def coq_step(step):
-    req = "(%s, %s, %s, %s, %s, %s, %s, %s)" % (
-        G.gbool(step["https"]), G.gbool(bool(step.get("xheaders"))), G.gbytes(step["ip"]), G.gbool(step["v11"]), G.gbytes(step["method"]),
+    req = "(%s, %s, %s, %s, %s, %s, %s, %s, %s, %s)" % (
+        G.gbool(step["https"]), G.gbool(bool(step.get("xheaders"))), G.gbytes(step["ip"]),
+        G.glist([G.gbytes(x) for x in step.get("trusted", [])], "(list N)"),
+        G.glist(["(%s, %s)" % (G.gbytes(k), G.gbool(b)) for k, b in gai_table(step)], "(list N * bool)"), G.gbool(step["v11"]), G.gbytes(step["method"]),
         G.gbytes(step["uri"]), _pairs(step["headers"]), G.gbytes(step["body"]))
     if step["start"] is None:
         st = "(@None (list N * list (list N * list N)))"
@@ -199,9 +245,9 @@ def coq_input(case):
 # ----------------------------------------------------------------------------
 # generator
 # ----------------------------------------------------------------------------
-def step(method="GET", uri="/", v11=True, headers=None, body="", https=False, xheaders=False, ip="1.2.3.4",
+def step(method="GET", uri="/", v11=True, headers=None, body="", https=False, xheaders=False, trusted=(), ip="1.2.3.4",
        start=("200 OK", []), written=(), chunks=("hi",)):
-    return {"https": https, "xheaders": xheaders, "ip": ip, "v11": v11, "method": method, "uri": uri,
+    return {"https": https, "xheaders": xheaders, "trusted": list(trusted), "ip": ip, "v11": v11, "method": method, "uri": uri,
             "headers": [list(h) for h in (headers if headers is not None else [("Host", " example.com")])],
             "body": body,
             "start": None if start is None else [start[0], [list(h) for h in start[1]]],
@@ -235,6 +281,10 @@ BAD_HDRS = [("X Foo", " 1"), ("X@", " 1"), ("\xe9", " 1"), ("", " 1"), ("X", " a
 CTYPES = [" text/plain", " t/x; charset=utf-8", " application/json", ""]
 XPROTO = [" https", " http", " https, http", " http,https ", " HTTPS", " ftp", "", " https\xa0", " ,", " http,", " https,\thttp\t",
           " \x85https", " wss, https", "https", " http://"]
+XFF = [" 9.9.9.9", " 9.9.9.9, 10.0.0.1", " 9.9.9.9,10.0.0.2, 10.0.0.1", " 10.0.0.1", " 10.0.0.1, 10.0.0.2", " bogus", " 9.9.9.9, bogus",
+       " ::1", " 2001:db8::5, 10.0.0.1", "", " ,", " 9.9.9.9,", " 1.2.3", " 9.9.9.9\xa0, 10.0.0.1", " 8.8.8.8 , 10.0.0.1 ", " [::1]",
+       " 999.1.1.1", " 9.9.9.9\t,\t10.0.0.1", " 1.2.3.4"]
+XREAL = [" 7.7.7.7", " bogus", " ::ffff:1.2.3.4", "", " 7.7.7.7, 8.8.8.8", " 7.7.7.7 x", " fe80::1%lo", " 0", " \xe9"]
 CONNS = [" close", " keep-alive", " Keep-Alive", " CLOSE", " upgrade", " close, x", ""]
 
 STATUSES = ["200 OK", "404 Not Found", "304 Not Modified", "204 No Content", "100 Continue", "500 ", "201 Created",
@@ -295,8 +345,15 @@ def rand_request(rng, good=True):
         hs.append((rng.choice(["X-Forwarded-Proto", "x-forwarded-proto", "X-Scheme", "x-scheme"]), rng.choice(XPROTO)))
         if rng.random() < 0.3:
             hs.append((rng.choice(["X-Forwarded-Proto", "X-Scheme"]), rng.choice(XPROTO)))
+    trusted = []
+    if rng.random() < (0.5 if xh else 0.05):
+        trusted = rng.choice([[], [], ["10.0.0.1"], ["10.0.0.1", "10.0.0.2"], ["1.2.3.4"]])
+        for _ in range(rng.choice([1, 1, 2])):
+            hs.append((rng.choice(["X-Forwarded-For", "x-forwarded-for"]), rng.choice(XFF)))
+    if rng.random() < (0.3 if xh else 0.05):
+        hs.append((rng.choice(["X-Real-Ip", "X-Real-IP", "x-real-ip"]), rng.choice(XREAL)))
     rng.shuffle(hs)
-    return dict(xheaders=xh, method=method, uri=uri, v11=v11, headers=hs, body=body, https=rng.random() < 0.3,
+    return dict(xheaders=xh, trusted=trusted, method=method, uri=uri, v11=v11, headers=hs, body=body, https=rng.random() < 0.3,
                 ip=rng.choice(["1.2.3.4", "10.0.0.1", "255.255.255.255"]))
 
 
@@ -452,6 +509,18 @@ def sequence_cases(rng, tier):
                        step(headers=[("Host", " h"), ("X-Scheme", v), ("X-Forwarded-Proto", " https")], xheaders=True, https=True, chunks=[]),
                        step(headers=[("Host", " h"), ("X-Scheme", v)], xheaders=False, chunks=[]),
                        step(headers=[("Host", " h"), ("x-scheme", v), ("X-SCHEME", " http")], xheaders=True, https=True, chunks=[])))
+    # REMOTE_ADDR behind proxies: every X-Forwarded-For / X-Real-Ip value x trusted_downstream; xheaders off ignores them;
+    # the rewrite does not leak into the next request
+    for tr in ([], ["10.0.0.1"], ["10.0.0.1", "10.0.0.2"]):
+        for v in XFF:
+            out.append(seq(step(headers=[("Host", " h"), ("X-Forwarded-For", v)], xheaders=True, trusted=tr, chunks=[]),
+                           step(headers=[("Host", " h")], xheaders=True, trusted=tr, chunks=[])))
+    for v in XREAL:
+        out.append(seq(step(headers=[("Host", " h"), ("X-Forwarded-For", " 9.9.9.9"), ("X-Real-Ip", v)], xheaders=True, chunks=[]),
+                       step(headers=[("Host", " h"), ("X-Real-Ip", v), ("X-Forwarded-For", " 9.9.9.9")], xheaders=False, chunks=[]),
+                       step(headers=[("Host", " h"), ("x-real-ip", v), ("X-REAL-IP", " 6.6.6.6")], xheaders=True, ip="10.0.0.1", chunks=[])))
+    out.append(seq(step(headers=[("Host", " h"), ("X-Forwarded-For", " 9.9.9.9"), ("x-forwarded-for", " 10.0.0.1"), ("Accept", " a"), ("accept", " b")],
+                        xheaders=True, trusted=["10.0.0.1"], chunks=[])))
     # two hosts interleaved, the port-less one seen under both schemes around a request with an explicit port
     for h1, h2 in [("a", "a:8080"), ("[::1]", "[::1]:"), ("x.y:", "x.y"), ("h", "H")]:
         for first in (False, True):
@@ -584,7 +653,7 @@ ASSUMPTIONS = [
     "the default (same-thread) executor; wsgi.multithread is then the constant False",
     "the application passes str status/header values and bytes body chunks (other types raise TypeErrors that are not modelled)",
     "the status code field contains no whitespace, sign, underscore or non-ASCII character unless it is all digits (int()'s extended syntax is outside the model: IntUnmodelled)",
-    "with xheaders=True the X-Forwarded-For / X-Real-Ip headers are not generated (remote_ip validation needs getaddrinfo); only the protocol part of _apply_xheaders is modelled",
+    "socket.getaddrinfo(AI_NUMERICHOST) behind netutil.is_valid_ip is a recorded table (asked directly by the harness for every candidate string); the remote_ip part of _apply_xheaders is C32's model (coq/C32/Model.v)",
     "request headers Expect / Transfer-Encoding, duplicate Content-Length and form/multipart content types are not generated (they trigger connection-layer behaviour outside WSGIContainer)",
     "response pass-through is stated for applications that respect PEP 3333 / HTTP (Run.app_ok): 3-digit status + space + printable ASCII reason, token header names, valid field values, no hop-by-hop headers, a correct Content-Length if given, no body with 1xx/204/304",
 ]
